@@ -381,5 +381,7 @@ class DensityMatrix(NeuralStateBase):
             num_aux=len(state_dict["rbm_am"]["aux_bias"]),
             gpu=gpu,
         )
+        if hasattr(location, "seek"):
+            location.seek(0)  # an open file was read above; read it again from the start
         nn_state.load(location)
         return nn_state
